@@ -1,4 +1,5 @@
 CONSTANTS
+  Alias = FALSE
   MaxLen = 3
   ExportLen = 3
 INIT Init
